@@ -325,13 +325,10 @@ def _scenario(fn, owner):
     try:
         return fn()
     except Exception as e:
-        tb = sys.exc_info()[2]
-        last = tb
-        while last.tb_next is not None:
-            last = last.tb_next
-        f = os.path.abspath(last.tb_frame.f_code.co_filename)
-        if f.startswith(os.path.join(common.REPO, "nasim") + os.sep):
-            raise SourceRejected(owner, f"{type(e).__name__}: {str(e)[:200]}")
+        from .engine import from_nasim
+        inside, where = from_nasim(sys.exc_info()[2])
+        if inside:
+            raise SourceRejected(owner, f"{type(e).__name__}: {str(e)[:200]} at {where}")
         raise
 
 
